@@ -212,3 +212,56 @@ Qed.
 (* pairs *)
 Lemma pair_eq : forall {A B} (a a' : A) (b b' : B), a = a' -> b = b' -> (a, b) = (a', b').
 Proof. intros; subst; reflexivity. Qed.
+
+Lemma tris_of_app : forall {V} (k : nat) (a l : list V),
+  length a = (3 * k)%nat -> tris_of (a ++ l) = tris_of a ++ tris_of l.
+Proof.
+  intros V. induction k as [|k IH]; intros a l H.
+  - destruct a; [reflexivity|discriminate].
+  - destruct a as [|x [|y [|z a]]]; cbn in H; try lia.
+    cbn [app tris_of]. rewrite IH by lia. reflexivity.
+Qed.
+
+Lemma tris_of_flat_map_k : forall {A V} (k : nat) (f : A -> list V),
+  (forall x, length (f x) = (3 * k)%nat) ->
+  forall xs l, tris_of (flat_map f xs ++ l) = flat_map (fun x => tris_of (f x)) xs ++ tris_of l.
+Proof.
+  intros A V k f H. induction xs as [|a xs IH]; intros l; cbn [flat_map app]; [reflexivity|].
+  rewrite <- !app_assoc, (tris_of_app k) by apply H. now rewrite IH.
+Qed.
+
+(* ---- cyclic successor / predecessor on 0 … n-1 (the seam wrap-around of the generators) ---- *)
+Definition sn (n k : N) : N := (k + 1) mod n.
+Definition pn (n k : N) : N := (k + n - 1) mod n.
+
+Lemma sn_spec : forall n k, k < n -> (sn n k = k + 1 /\ k + 1 < n) \/ (sn n k = 0 /\ k + 1 = n).
+Proof.
+  intros n k H. unfold sn. destruct (N.eq_dec (k + 1) n) as [E|E].
+  - right. split; [|exact E]. rewrite E. apply N.mod_same. lia.
+  - left. split; [|lia]. apply N.mod_small. lia.
+Qed.
+
+Lemma pn_spec : forall n k, k < n -> (k = 0 /\ pn n k = n - 1) \/ (0 < k /\ pn n k = k - 1).
+Proof.
+  intros n k H. unfold pn. destruct (N.eq_dec k 0) as [E|E].
+  - left. split; [exact E|]. subst k. apply N.mod_small. lia.
+  - right. split; [lia|]. replace (k + n - 1) with (k - 1 + 1 * n) by lia.
+    rewrite N.mod_add by lia. apply N.mod_small. lia.
+Qed.
+
+Lemma sn_lt : forall n k, k < n -> sn n k < n.
+Proof. intros n k H. destruct (sn_spec n k H); lia. Qed.
+Lemma pn_lt : forall n k, k < n -> pn n k < n.
+Proof. intros n k H. destruct (pn_spec n k H); lia. Qed.
+Lemma sn_pn : forall n k, k < n -> sn n (pn n k) = k.
+Proof. intros n k H. pose proof (pn_spec n k H). pose proof (sn_spec n (pn n k) (pn_lt n k H)). lia. Qed.
+Lemma pn_sn : forall n k, k < n -> pn n (sn n k) = k.
+Proof. intros n k H. pose proof (sn_spec n k H). pose proof (pn_spec n (sn n k) (sn_lt n k H)). lia. Qed.
+
+Lemma tris_of_flat_map_k0 : forall {A V} (k : nat) (f : A -> list V),
+  (forall x, length (f x) = (3 * k)%nat) ->
+  forall xs, tris_of (flat_map f xs) = flat_map (fun x => tris_of (f x)) xs.
+Proof.
+  intros A V k f H xs. rewrite <- (app_nil_r (flat_map f xs)), (tris_of_flat_map_k k f H).
+  cbn [tris_of]. now rewrite app_nil_r.
+Qed.
